@@ -19,6 +19,7 @@ use serde_json::{json, Value};
 mod cli;
 mod common;
 mod fam_array;
+mod fam_cli;
 mod fam_container;
 mod fam_create;
 mod gen;
@@ -62,6 +63,7 @@ type Runner = fn(&Value, &Ctx) -> Outcome;
 fn family(name: &str) -> Option<Runner> {
     Some(match name {
         "array" => fam_array::run,
+        "cli" => fam_cli::run,
         "container" => fam_container::run,
         "create" => fam_create::run,
         "fold" => fam_fold::run,
